@@ -304,19 +304,27 @@ def generate(rng, tier):
         if rng.random() < 0.4:
             hist.append([1])
         cases.append(("proxy.run", [1, hist]))
-    # ---- the two proxies a real Live installs on sys.stdout / sys.stderr
-    for _ in range(250 * k):
+    # ---- the two proxies a real Live / Status / Progress installs on sys.stdout / sys.stderr, over
+    # start / stop / start ... on ONE display object: arg = [kind, [history per run]]
+    def live_hist():
         hist = []
-        for _ in range(rng.randint(1, 8)):
+        for _ in range(rng.randint(1, 6)):
             which = rng.randint(0, 1)
             if rng.random() < 0.2:
                 hist.append([1, which])
             else:
                 r = rng.random()
-                txt = rand_stream_line(rng) if r < 0.5 else rand_text(rng, CLEAN, 5)
-                txt += rng.choice(["\n", "\n", "", "\nx\ny\n", "\n\n"])
+                txt = rand_stream_line(rng) if r < 0.4 else (rand_text(rng, CLEAN, 5) or "x")
+                txt += rng.choice(["\n", "\n", "\n", "", "\nx\ny\n", "\n\n"])
                 hist.append([0, which, s2t(txt)])
-        cases.append(("proxy.live", hist))
+        return hist
+    for kind in (0, 1, 2):
+        # every run writes a complete line on both streams
+        cases.append(("proxy.live", [kind, [[[0, 0, s2t("out%d\n" % i)], [0, 1, s2t("err%d\n" % i)]] for i in range(3)]]))
+    for _ in range(260 * k):
+        kind = rng.choice([0, 0, 1, 2])
+        nruns = rng.choice([1, 2, 2, 3, 3, 4])
+        cases.append(("proxy.live", [kind, [live_hist() for _ in range(nruns)]]))
     for _ in range(900 * k):
         stream = "".join(rand_stream_line(rng) + rng.choice(["\n", "\n", "\n", "", "\n\n", "\r\n"])
                          for _ in range(rng.randint(0, 6)))
@@ -355,7 +363,7 @@ def model_case(op, arg):
     if op == "proxy.run":
         return op, [d8_fixed(), arg[1]]
     if op == "proxy.live":
-        return op, [d8_fixed(), arg]
+        return op, [d8_fixed(), arg[0], arg[1]]
     return op, arg
 
 
@@ -504,7 +512,7 @@ def impl(op, arg):
     if op == "proxy.run":
         return _proxy_run(arg[0], arg[1])
     if op == "proxy.live":
-        return _proxy_live(arg)
+        return _proxy_live(arg[0], arg[1])
     if op == "proxy.facts":
         return _facts()
     raise KeyError(op)
@@ -580,14 +588,13 @@ def _log_outs(entries):
     return outs
 
 
-def _proxy_live(hist):
-    """a real Live on a terminal console: sys.stdout / sys.stderr must be FileProxy objects on that
-    console; the history is played through them"""
+def _proxy_live(kind, runs):
+    """start / history / stop repeated on ONE real Live (0), Status (1, wraps a Live) or Progress (2) on a
+    terminal console.  Per run: [redirected0, redirected1, restored0, restored1], the console.print calls
+    of each operation, what is pending in the two proxies just before stop()."""
     import io, sys
     from rich.console import Console
     from rich.file_proxy import FileProxy
-    from rich.live import Live
-    from rich.text import Text
     log = []
 
     class Rec(Console):
@@ -600,48 +607,54 @@ def _proxy_live(hist):
     saved = sys.stdout, sys.stderr
     fake_out, fake_err = io.StringIO(), io.StringIO()
     sys.stdout, sys.stderr = fake_out, fake_err
-    per_op = []
-    pend = [[], []]
-    problems = []
+    out = []
+    seen = []
     try:
-        live = Live(Text("LIVE"), console=console, auto_refresh=False, redirect_stdout=True, redirect_stderr=True)
-        live.start()
-        try:
-            streams = [sys.stdout, sys.stderr]
-            for k, f in enumerate(streams):
-                if not isinstance(f, FileProxy):
-                    problems.append("stream %d is not redirected" % k)
-            for o in hist:
-                n0 = len(log)
-                exc = None
-                try:
-                    f = streams[o[1]]
-                    if o[0] == 0:
-                        f.write(t2s(o[2]))
-                    else:
-                        f.flush()
-                except Exception as e:
-                    exc = type(e).__name__
-                outs = _log_outs(log[n0:])
-                if exc is not None:
-                    outs.append([1, 1, common.DOC_ERRORS[exc]] if exc in common.DOC_ERRORS
-                                else [1, 0, common.CRASH_ERRORS.get(exc, 99)])
-                per_op.append(outs)
-            for k, f in enumerate(streams):
-                if isinstance(f, FileProxy):
-                    pend[k] = s2t("".join(f._FileProxy__buffer))
-        finally:
-            live.stop()
-        if sys.stdout is not fake_out or sys.stderr is not fake_err:
-            problems.append("streams not restored by stop()")
+        if kind == 0:
+            from rich.live import Live
+            from rich.text import Text
+            disp = Live(Text("LIVE"), console=console, auto_refresh=False, redirect_stdout=True, redirect_stderr=True)
+        elif kind == 1:
+            from rich.status import Status
+            disp = Status("working", console=console)
+        else:
+            from rich.progress import Progress
+            disp = Progress(console=console, auto_refresh=False)
+            disp.add_task("t", total=10)
+        for hist in runs:
+            disp.start()
+            per_op = []
+            pend = [[], []]
+            try:
+                streams = [sys.stdout, sys.stderr]
+                red = [1 if (isinstance(f, FileProxy) and not any(f is g for g in seen)) else 0 for f in streams]
+                seen.extend(f for f in streams if isinstance(f, FileProxy))
+                for o in hist:
+                    n0 = len(log)
+                    exc = None
+                    try:
+                        f = streams[o[1]]
+                        if o[0] == 0:
+                            f.write(t2s(o[2]))
+                        else:
+                            f.flush()
+                    except Exception as e:
+                        exc = type(e).__name__
+                    outs = _log_outs(log[n0:])
+                    if exc is not None:
+                        outs.append([1, 1, common.DOC_ERRORS[exc]] if exc in common.DOC_ERRORS
+                                    else [1, 0, common.CRASH_ERRORS.get(exc, 99)])
+                    per_op.append(outs)
+                for k, f in enumerate(streams):
+                    if isinstance(f, FileProxy):
+                        pend[k] = s2t("".join(f._FileProxy__buffer))
+            finally:
+                disp.stop()
+            restored = [1 if sys.stdout is fake_out else 0, 1 if sys.stderr is fake_err else 0]
+            out.append([red + restored, per_op, pend[0], pend[1]])
     finally:
         sys.stdout, sys.stderr = saved
-    if fake_out.getvalue() or fake_err.getvalue():
-        problems.append("something reached the proxied files")
-    res = [per_op, pend[0], pend[1]]
-    if problems:
-        res.append([s2t(p) for p in problems])
-    return res
+    return out
 
 
 def _facts():
@@ -689,16 +702,20 @@ def spec_cases(op, arg, out):
             # the final "\n" segment ends the last line
         return [("spec.decode.roundtrip_ok", [want, dec[1]])]
     if op == "proxy.live":
-        if len(out) != 3:
+        if len(out) != len(arg[1]):
             return [("spec.decode.no_crash", [2])]
         res = []
-        for k in (0, 1):
-            h, outs = [], []
-            for o, oo in zip(arg, out[0]):
-                if o[1] == k:
-                    h.append([0, o[2]] if o[0] == 0 else [1])
-                    outs += [x if not (x[0] == 0 and x[1] == 2) else [0, 1, [], x[3]] for x in oo]
-            res.append(("spec.proxy.ok", [h, outs, out[1 + k]]))
+        for hist, run in zip(arg[1], out):
+            if len(run) != 4:
+                return [("spec.decode.no_crash", [2])]
+            res.append(("spec.proxy.flags", run[0]))
+            for k in (0, 1):
+                h, outs = [], []
+                for o, oo in zip(hist, run[1]):
+                    if o[1] == k:
+                        h.append([0, o[2]] if o[0] == 0 else [1])
+                        outs += [x if not (x[0] == 0 and x[1] == 2) else [0, 1, [], x[3]] for x in oo]
+                res.append(("spec.proxy.ok", [h, outs, run[2 + k]]))
         return res
     if op == "proxy.run":
         if len(out) != 2:
